@@ -23,8 +23,8 @@ TINY_THOROUGH = dict(TINY, enum=dict(TINY["enum"], cancel=True, subs=True))
 
 
 def run(ck):
-    return X.run_exec(ck, 2, BIAS, tiny=TINY if ck.tier == "quick" else TINY_THOROUGH)
+    return X.run_exec(ck, 2, BIAS, tiny=TINY if ck.tier == "quick" else TINY_THOROUGH, shown=True)
 
 
 def replay(ck, path):
-    return X.replay_exec(ck, 2, path)
+    return X.replay_exec(ck, 2, path, shown=True)
